@@ -1304,8 +1304,12 @@ def info(verbose, single_file, root_path):
     \b
     """
     if single_file is not None and len(single_file) > 0:
-        if root_path == None:
-            current_dir = os.path.dirname(os.path.abspath(single_file[0]))
+        if root_path is not None:
+            info_for_single_file(root_path, verbose, single_file)
+            return
+        # without a root path every file is looked up in the history that is nearest to it
+        for path in single_file:
+            current_dir = os.path.dirname(os.path.abspath(path))
             while os.path.isdir(current_dir):
                 asc_mhl_folder_path = os.path.join(current_dir, ascmhl_folder_name)
                 if os.path.exists(asc_mhl_folder_path):
@@ -1318,10 +1322,10 @@ def info(verbose, single_file, root_path):
                     break
                 current_dir = parent_dir
 
-        if root_path is None:
-            raise errors.NoMHLHistoryException(single_file[0])
-        else:
-            info_for_single_file(root_path, verbose, single_file)
+            if root_path is None:
+                raise errors.NoMHLHistoryException(path)
+            info_for_single_file(root_path, verbose, [path])
+            root_path = None
         return
     else:
         info_for_entire_history(root_path, verbose)
